@@ -7,7 +7,7 @@ use syn::{
     Expr, GenericParam, Lit, Meta, MetaNameValue, Path, Token, Type, WherePredicate,
 };
 
-use super::path::path_to_string;
+use super::path::{path_to_string, ungroup};
 
 pub(crate) type WherePredicates = Punctuated<WherePredicate, Token![,]>;
 
@@ -55,7 +55,7 @@ impl Parse for WherePredicatesOrBool {
 pub(crate) fn meta_name_value_2_where_predicates_bool(
     name_value: &MetaNameValue,
 ) -> syn::Result<WherePredicatesOrBool> {
-    if let Expr::Lit(lit) = &name_value.value {
+    if let Expr::Lit(lit) = ungroup(&name_value.value) {
         return WherePredicatesOrBool::from_lit(&lit.lit);
     }
 
